@@ -7,7 +7,7 @@ pub fn def() -> PropDef {
     PropDef {
         id: "C18",
         builds: BOTH,
-        rule: "every text over {SP,TAB,L,NL,CRLF,NBSP,L,SHY (non-whitespace sharing NBSP's UTF-8 lead byte)} up to length N; dedent compared line-wise with the reference (margin = longest common whitespace prefix of the lines containing a non-whitespace character); newline count preserved; idempotence (no line ending in a lone CR); dedent(indent(s,p)) == dedent(s) for 4 whitespace prefixes (CR-free s); non-trivial = >= 2 lines with content and a non-empty margin on at least one of them",
+        rule: "every text over {SP,SP SP,TAB,L,NL,CRLF,NBSP,SHY (non-whitespace sharing NBSP's UTF-8 lead byte)} and every scalar value in four margin/blank-line/content contexts up to length N; dedent compared line-wise with the reference (margin = longest common whitespace prefix of the lines containing a non-whitespace character); newline count preserved; idempotence (no line ending in a lone CR); dedent(indent(s,p)) == dedent(s) for 4 whitespace prefixes (CR-free s); non-trivial = >= 2 lines with content and a non-empty margin on at least one of them",
         assumptions: BASE_ASSUMPTIONS,
         floor: |t| t.pick(10_000, 30_000),
         run,
@@ -31,20 +31,40 @@ fn same_lines(out: &str, expected: &[String], final_newline: bool) -> bool {
 
 fn run(r: &mut Run) -> Result<(), MachineryError> {
     let t = r.tier;
-    let alpha = [SP, TAB, L, NL, CRLF, NB, L, SHY];
+    let alpha = [SP, SP2, TAB, L, NL, CRLF, NB, SHY];
     let n = t.pick(7, 9);
     let space = Space { name: "C18/texts".into(), menu: menu(&alpha), max_len: n, desc: format!("texts of length <= {}", n) };
     r.space(space, |seq, cx| {
         let s = build(seq, &alpha);
         cx.set_input(&s);
+        check_text(&s, cx);
+    })?;
+    // every character as margin, as blank line and as content (catches whitespace-class confusions
+    // such as u8::is_ascii_whitespace vs char::is_whitespace: VT, U+3000, ...)
+    r.range("C18/all-characters-in-context", &format!("{}; each c in the texts \"c a\\nc b\", \" a\\nc\\n b\", \"  a\\n c b\\n\", \"cc a\\nc b\"", scalar_desc(t)), scalar_space(t), move |i, cx| {
+        let c = match scalar_at(t, i) {
+            Some(c) => c,
+            None => return,
+        };
+        cx.seq = idx_seq(i);
+        for s in [format!("{c} a\n{c} b"), format!(" a\n{c}\n b"), format!("  a\n {c} b\n"), format!("{c}{c} a\n{c} b")] {
+            cx.set_input(&s);
+            check_text(&s, cx);
+        }
+    })
+}
+
+fn check_text(s: &str, cx: &mut Cx) {
+    {
+
         cx.eval();
         let d = || String::new();
-        let out = match cx.guard(|| dedent(&s)) {
+        let out = match cx.guard(|| dedent(s)) {
             Some(x) => x,
             None => return,
         };
         cx.outcome(&out);
-        let exp = ref_dedent_lines(&s);
+        let exp = ref_dedent_lines(s);
         let content_lines = s.lines().filter(|l| l.chars().any(|c| !c.is_whitespace())).count();
         if content_lines >= 2 && s.lines().any(|l| l.chars().any(|c| !c.is_whitespace()) && l.starts_with(|c: char| c.is_whitespace())) {
             cx.nontrivial();
@@ -66,10 +86,10 @@ fn run(r: &mut Run) -> Result<(), MachineryError> {
         }
         if !s.contains('\r') {
             for p in [" ", "\t", "  \t", "\u{a0} "] {
-                if let Some(x) = cx.guard(|| dedent(&indent(&s, p))) {
+                if let Some(x) = cx.guard(|| dedent(&indent(s, p))) {
                     cx.check("C18-dedent-of-indent", x == out, &|| format!("prefix={:?}", p), &|| json!({"dedent(indent(s,p))": x, "dedent(s)": out}));
                 }
             }
         }
-    })
+    }
 }
